@@ -604,7 +604,7 @@ func runMain(c *hlib.Ctx) *hlib.Run {
 	for _, f := range files {
 		fdesc = append(fdesc, fmt.Sprintf("%s (%d bytes)", f.desc, len(f.data)))
 	}
-	out.Hash = rep.SchedHash ^ hlib.Hash64(fmt.Sprint(fdesc), strings.Join(args[1:9], " "))
+	out.Hash = rep.SchedHash ^ hlib.Hash64(fmt.Sprint(fdesc), strings.Join(args[1:8], " "), fmt.Sprint(useJSON, byDir, nested)) // not the JSON path: it contains a random directory name
 	out.Sample = map[string]any{"level": "main", "argv": args[1:9], "files": fdesc, "by_directory": byDir, "nested": nested, "tasks_total": rep.Tasks, "context_switches": rep.Switches}
 	if c.Trace {
 		out.Trace = append([]string{fmt.Sprintf("main level: argv=%v files=%v", args, fdesc)}, rep.Trace...)
